@@ -14,13 +14,13 @@ import (
 )
 
 var (
-	big0     = big.NewInt(0)
-	big1     = big.NewInt(1)
-	two63    = new(big.Int).Lsh(big1, 63)
-	two64    = new(big.Int).Lsh(big1, 64)
-	maxU64   = new(big.Int).Sub(two64, big1)
-	maxI64   = new(big.Int).Sub(two63, big1)
-	minI64   = new(big.Int).Neg(two63)
+	big0   = big.NewInt(0)
+	big1   = big.NewInt(1)
+	two63  = new(big.Int).Lsh(big1, 63)
+	two64  = new(big.Int).Lsh(big1, 64)
+	maxU64 = new(big.Int).Sub(two64, big1)
+	maxI64 = new(big.Int).Sub(two63, big1)
+	minI64 = new(big.Int).Neg(two63)
 )
 
 type ival struct{ lo, hi *big.Int }
